@@ -48,6 +48,41 @@ type xspec struct {
 	Clearsign bool     `json:"clearsign"`
 	Armor     bool     `json:"armor"`
 	ReadWrite bool     `json:"rw"` // open the input O_RDWR, as the command line does when input and output are the same name
+	// environment of the open phase (all take effect just before the output phase starts, after input and payload were read):
+	Uid    int  `json:"uid"`    // > 0: give up root (setgid+setuid) - directory permissions apply to the output phase
+	NoFile bool `json:"nofile"` // lower RLIMIT_NOFILE to the descriptors already open: the next open of anything fails with EMFILE
+}
+
+// restrict applies the environment of the open phase; called immediately before mark()
+func (sp *xspec) restrict() error {
+	if sp.NoFile {
+		probe, err := os.Open("/dev/null") // gets the lowest free descriptor number: every number below it is in use
+		if err != nil {
+			return err
+		}
+		lowest := uint64(probe.Fd())
+		probe.Close()
+		var lim syscall.Rlimit
+		if err := syscall.Getrlimit(syscall.RLIMIT_NOFILE, &lim); err != nil {
+			return err
+		}
+		lim.Cur = lowest
+		if err := syscall.Setrlimit(syscall.RLIMIT_NOFILE, &lim); err != nil {
+			return err
+		}
+	}
+	if sp.Uid > 0 {
+		if err := syscall.Setgroups([]int{sp.Uid}); err != nil {
+			return err
+		}
+		if err := syscall.Setgid(sp.Uid); err != nil {
+			return err
+		}
+		if err := syscall.Setuid(sp.Uid); err != nil {
+			return err
+		}
+	}
+	return nil
 }
 
 func pgpFlags(inline, clearsign, armor bool) url.Values {
@@ -138,11 +173,17 @@ func init() {
 		}
 		switch sp.Strategy {
 		case "writefile":
+			if err := sp.restrict(); err != nil {
+				return err
+			}
 			mark()
 			return atomicfile.WriteFile(sp.Dest, payload)
 		case "whole":
 			f, err := open()
 			if err != nil {
+				return err
+			}
+			if err := sp.restrict(); err != nil {
 				return err
 			}
 			mark()
@@ -173,6 +214,9 @@ func init() {
 				blob = ps.Dump()
 			}
 			// through fileProducer.Apply, as the client does for a binpatch response
+			if err := sp.restrict(); err != nil {
+				return err
+			}
 			mark()
 			return signers.DefaultTransform(f).Apply(sp.Dest, binpatch.MimeType, bytes.NewReader(blob))
 		case "msi":
@@ -184,6 +228,9 @@ func init() {
 			mflags, _ := mod.FlagsFromQuery(nil)
 			tr, err := mod.GetTransform(f, signers.SignOpts{Flags: mflags, Hash: crypto.SHA256})
 			if err != nil {
+				return err
+			}
+			if err := sp.restrict(); err != nil {
 				return err
 			}
 			mark()
@@ -200,6 +247,9 @@ func init() {
 			}
 			tr, err := mod.GetTransform(f, signers.SignOpts{Flags: flags, Hash: crypto.SHA256})
 			if err != nil {
+				return err
+			}
+			if err := sp.restrict(); err != nil {
 				return err
 			}
 			mark()
